@@ -1,6 +1,7 @@
 import LoraVerif.Model.Mac
 import LoraVerif.Lemmas.ExceptLemmas
 import LoraVerif.Lemmas.Ghost
+import LoraVerif.Lemmas.MacWFStep
 /-!
 # C08 — MAC command handling is consistent and atomic: the device does what it answers
 
@@ -14,6 +15,16 @@ implementation's own outputs).
   (`rxParamSetup_*`, `linkAdr_*`, `newChannel_*`, `dlChannel_*`);
 * unambiguously invalid requests are rejected (`*_rejects_*`);
 * stickiness: `retainSticky` keeps exactly RXParamSetupAns/RXTimingSetupAns/DlChannelAns (`retainSticky_spec`).
+* THE WHOLE COMMAND STREAM: `handleCmds_answers` / `accept_answers` — after `handle_downlink_macs` the
+  pending queue is the old queue followed by the longest prefix that fits 15 bytes (`fit`: cut only at
+  the limit, nothing later kept) of "one answer per handled request, in request order, a LinkADRReq
+  block answered with identical copies" (`Answers`), each answer with its outcome: acknowledged ⇒ took
+  effect exactly, rejected ⇒ changed nothing (the per-command theorems composed along `handleCmds`;
+  `handleCmds_adr_run`: a block is decided once, with DataRate_TXPower of its last command).
+* HISTORIES: `history_answers` — along every run every uplink carries exactly the owed answers; after
+  a downlink accepted in a Class A window (judged by the reference tracker) the device owes the
+  fitting prefix of the answers to that frame, sticky answers are repeated until the next such
+  downlink, all others are sent once (`AnsStep`).
 -/
 open Model Gen.Region
 
@@ -1019,6 +1030,343 @@ example : ((handleNewChannel (RegionState.init .EU868) 4 867300000 (some 0x50)).
 example : ((handleNewChannel (RegionState.init .EU868) 1 867300000 (some 0x50)).toOption.map (·.1)) = some (false, false) := by decide
 example : retainSticky 16 [0x03, 7, 0x05, 7, 0x06, 255, 0, 0x08, 0x0A, 3] = [0x05, 7, 0x08, 0x0A, 3] := by decide
 
+
+/-! ## histories: what the next uplink carries -/
+
+/-- the MAC-command field of an uplink: FOpts, or the FRMPayload of a port-0 frame -/
+def macField (u : UplinkDesc) : List Nat := if u.fport != 0 then u.fopts else u.payload
+
+/-- the answers to both command streams of a frame (FOpts, then a port-0 payload), by shape -/
+def frameShape (r : RegionId) (d : RxData) (snr : Int) (as : List Ans) : Prop :=
+  ∃ as1 as2, Shape r snr (cmdsOf d.fopts) as1 ∧
+    (if d.fport = some 0 then Shape r snr (cmdsOf d.payload) as2 else as2 = []) ∧ as = as1 ++ as2
+
+/-- reference state for the answers: the session tracker of C05 and the whole answers the next uplink owes -/
+abbrev AG := Gh × List Ans
+
+/-- **one event, seen from the answer queue.**  An uplink of a joined device carries exactly the owed
+answers (in FOpts, or as port-0 payload); if the reference accepts a frame in one of its Class A
+windows (also when a radio fault cuts the procedure short afterwards), the device then owes exactly the
+longest fitting prefix of the answers to that frame's requests — everything owed before is gone;
+otherwise it goes on owing the sticky answers (RXParamSetupAns, RXTimingSetupAns, DlChannelAns) only.
+Class C receptions and the ADR/data-rate calls do not touch the queue; activation empties it. -/
+def AnsStep (r : RegionId) (g : AG) (ev : Ev) (out : Out) (g' : AG) : Prop :=
+  g'.1 = ghStep g.1 ev ∧
+  match ev, g.1 with
+  | .uplink _ _ _ fault rx1 rx2 mp1 mp2, some last =>
+    (∃ so resp dl, out = .up so resp dl ∧ macField so.frame = wires g.2) ∧
+    (match upRes last fault rx1 rx2 mp1 mp2 with
+     | .accepted _ d snr => ∃ as, frameShape r d snr as ∧ g'.2 = fit 15 as
+     | _ => g'.2 = g.2.filter (fun a => isSticky a.1))
+  | .joinAbp _ _ _, _ => g'.2 = []
+  | .joinOtaa _ _ _ _ _, _ => g'.2 = []
+  | _, _ => g'.2 = g.2
+
+/-- the tie between model state and reference state -/
+def AnsRel (r : RegionId) (m : MacState) (g : AG) : Prop :=
+  GhRel m g.1 ∧ MacWF m ∧ m.region.id = r ∧ ∀ s, m.st = .joined s → s.pending = wires g.2 ∧ Whole g.2
+
+theorem whole_filter {as : List Ans} (h : Whole as) (f : Ans → Bool) : Whole (as.filter f) :=
+  fun a ha => h a (List.mem_filter.mp ha).1
+
+theorem whole_prefix {as bs : List Ans} (h : Whole bs) (hp : as <+: bs) : Whole as :=
+  fun a ha => h a (hp.subset ha)
+
+theorem whole_append {as bs : List Ans} (ha : Whole as) (hb : Whole bs) : Whole (as ++ bs) := by
+  intro a h
+  rcases List.mem_append.mp h with h | h
+  · exact ha a h
+  · exact hb a h
+
+theorem frameShape_whole {r : RegionId} {d : RxData} {snr : Int} {as : List Ans} (h : frameShape r d snr as) : Whole as := by
+  obtain ⟨as1, as2, h1, h2, rfl⟩ := h
+  refine whole_append h1.whole ?_
+  split at h2
+  · exact h2.whole
+  · subst h2; intro a ha; cases ha
+
+theorem sentSession_pending (s : Session) (conf : Bool) (pend : List Ans) (hp : s.pending = wires pend) (hw : Whole pend) :
+    (sentSession s conf).pending = wires (pend.filter (fun a => isSticky a.1)) := by
+  simp only [sentSession]
+  rw [hp]
+  exact retainSticky_spec pend hw _ (Nat.lt_succ_self _)
+
+theorem timeoutState_pending (m : MacState) (s' : Session) (h : (timeoutState m).st = .joined s') :
+    ∃ s, m.st = .joined s ∧ s'.pending = s.pending := by
+  by_cases hj : ∃ s, m.st = .joined s
+  · obtain ⟨s, hs⟩ := hj
+    obtain ⟨fu, cnt, cfg', e⟩ := timeoutState_joined m s hs
+    rw [e] at h
+    simp only [JoinState.joined.injEq] at h
+    subst h
+    exact ⟨s, hs, rfl⟩
+  · rw [timeoutState_notJoined m (fun s hs => hj ⟨s, hs⟩)] at h
+    exact absurd ⟨s', h⟩ hj
+
+theorem accept_frameShape (pending : List Nat) (cfg : Config) (region : RegionState) (d : RxData) (snr : Int) (ctx : MacCtx)
+    (h : acceptCmds pending cfg region d snr false = .ok ctx) :
+    ∃ as, frameShape region.id d snr as ∧ ctx.pending = wires (fit 15 as) := by
+  obtain ⟨as1, as2, cfg1, rg1, m1, ha1, ha2, hp⟩ := accept_answers pending cfg region d snr ctx h
+  obtain ⟨hs1, hid1⟩ := ha1.shape
+  refine ⟨as1 ++ as2, ⟨as1, as2, hs1, ?_, rfl⟩, hp⟩
+  by_cases hport : d.fport = some 0
+  · rw [if_pos hport] at ha2 ⊢
+    obtain ⟨m2, ha2⟩ := ha2
+    have := ha2.shape.1
+    simp only at this hid1
+    rw [hid1] at this
+    exact this
+  · rw [if_neg hport] at ha2 ⊢
+    exact ha2.1
+
+theorem acceptState_pending (m : MacState) (s : Session) (d : RxData) (N : Nat) (ctx : MacCtx) (s' : Session)
+    (h : (acceptState m s d N ctx).st = .joined s') : s'.pending = ctx.pending := by
+  obtain ⟨fu, e⟩ := acceptFinish_session s d N ctx
+  rw [acceptState_st, e] at h
+  simp only [JoinState.joined.injEq] at h
+  subst h; rfl
+
+theorem step_ansRel {σ} (g : Rng σ) (r : RegionId) (m m' : MacState) (rs rs' : σ) (ev : Ev) (out : Out) (ag : AG)
+    (hr : AnsRel r m ag) (hv : evOk ev = true ∧ validEv r ev = true) (h : step g (m, rs) ev = .ok ((m', rs'), out)) :
+    ∃ ag', AnsStep r ag ev out ag' ∧ AnsRel r m' ag' := by
+  obtain ⟨gh, pend⟩ := ag
+  obtain ⟨hgh, hwf, hid, hpend⟩ := hr
+  simp only at hgh hpend
+  have hgh' := step_ghRel g m m' rs rs' ev out gh hgh hv.1 h
+  have hk : Keeps m m' := (step_safe g m rs ev hwf (by unfold ValidEv; rw [hid]; exact hv.2)).elim h
+  have hid' : m'.region.id = r := by rw [hk.2.1, hid]
+  -- it suffices to name the new queue and show the two facts about it
+  suffices hs : ∃ pend', (AnsStep r (gh, pend) ev out (ghStep gh ev, pend')) ∧
+      (∀ s, m'.st = .joined s → s.pending = wires pend' ∧ Whole pend') by
+    obtain ⟨pend', h1, h2⟩ := hs
+    exact ⟨(ghStep gh ev, pend'), h1, hgh', hk.1, hid', h2⟩
+  cases ev with
+  | joinAbp da nwk app =>
+    simp only [step, pure, Except.pure, Except.ok.injEq, Prod.mk.injEq] at h
+    obtain ⟨⟨rfl, _⟩, _⟩ := h
+    refine ⟨[], ⟨rfl, by cases gh <;> rfl⟩, ?_⟩
+    intro s hs
+    simp only [macJoinAbp, JoinState.joined.injEq] at hs
+    subst hs
+    exact ⟨rfl, fun a ha => by cases ha⟩
+  | setDr dr =>
+    simp only [step, pure, Except.pure, Except.ok.injEq, Prod.mk.injEq] at h
+    obtain ⟨⟨rfl, _⟩, _⟩ := h
+    exact ⟨pend, ⟨rfl, by cases gh <;> rfl⟩, hpend⟩
+  | setAdr on =>
+    simp only [step, pure, Except.pure, Except.ok.injEq, Prod.mk.injEq] at h
+    obtain ⟨⟨rfl, _⟩, _⟩ := h
+    refine ⟨pend, ⟨rfl, by cases gh <;> rfl⟩, ?_⟩
+    intro s' hs'
+    by_cases hj : ∃ s, m.st = .joined s
+    · obtain ⟨s, hs⟩ := hj
+      obtain ⟨cnt, e⟩ := (macSetAdr_st m on).1 s hs
+      rw [e] at hs'
+      simp only [JoinState.joined.injEq] at hs'
+      subst hs'
+      exact hpend s hs
+    · rw [(macSetAdr_st m on).2 (fun s hs => hj ⟨s, hs⟩)] at hs'
+      exact absurd ⟨s', hs'⟩ hj
+  | joinOtaa fault rx1 rx2 mp1 mp2 =>
+    obtain ⟨jo, m1, o, _, hst1, _, ht⟩ := step_joinOtaa_inv g m m' rs rs' fault rx1 rx2 mp1 mp2 out h
+    refine ⟨[], ⟨rfl, by cases gh <;> rfl⟩, ?_⟩
+    intro s hs
+    cases hj : joinRes fault rx1 rx2 with
+    | some j =>
+      simp only [hj] at ht
+      rw [otaaAccept_st m1 m' j ht.1] at hs
+      simp only [JoinState.joined.injEq] at hs
+      subst hs
+      exact ⟨rfl, fun a ha => by cases ha⟩
+    | none =>
+      simp only [hj] at ht
+      obtain ⟨rfl, _⟩ := ht
+      rw [hst1] at hs; cases hs
+  | rxc v snr mp =>
+    cases gh with
+    | none =>
+      obtain ⟨rfl, _, _⟩ := step_rxc_notJoined g m m' rs rs' hgh v snr mp out h
+      exact ⟨pend, ⟨rfl, rfl⟩, hpend⟩
+    | some last =>
+      obtain ⟨s, hst, rfl, hl⟩ := hgh
+      have hvv : viewOk v = true := by simpa [evOk] using hv.1
+      obtain ⟨_, rf, _, ht⟩ := step_rxc_joined g m m' rs rs' s hst hl v snr mp hvv out h
+      refine ⟨pend, ⟨rfl, rfl⟩, ?_⟩
+      intro s' hs'
+      cases hs : specRxc s.fcntDown v mp with
+      | none =>
+        simp only [hs] at ht
+        obtain ⟨rfl, _⟩ := ht
+        exact hpend s' hs'
+      | some p =>
+        obtain ⟨N, d⟩ := p
+        simp only [hs] at ht
+        obtain ⟨rfl, _⟩ := ht
+        rw [acceptState_pending m s d N _ s' hs']
+        exact hpend s hst
+  | uplink data fport conf fault rx1 rx2 mp1 mp2 =>
+    cases gh with
+    | none =>
+      obtain ⟨rfl, _, _⟩ := step_uplink_notJoined g m m' rs rs' hgh data fport conf fault rx1 rx2 mp1 mp2 out h
+      exact ⟨pend, ⟨rfl, rfl⟩, hpend⟩
+    | some last =>
+      obtain ⟨s, hst, rfl, hl⟩ := hgh
+      have hvv : rxOk rx1 = true ∧ rxOk rx2 = true := by simpa [evOk] using hv.1
+      have hval : (fport = 0 → data = []) ∧ data.length ≤ 222 := by
+        have := hv.2
+        simp only [validEv, Bool.and_eq_true, Bool.or_eq_true, bne_iff_ne, ne_eq, List.isEmpty_iff, decide_eq_true_eq] at this
+        exact ⟨fun e => by rcases this.1.1.1 with h0 | h0; exact absurd e h0; exact h0, this.1.1.2⟩
+      obtain ⟨so, m1, hsend, hfr, hst1, hcfg1, ht⟩ :=
+        step_uplink_joined g m m' rs rs' s hst hl data fport conf fault rx1 rx2 mp1 mp2 hvv.1 hvv.2 out h
+      have hk1 : Keeps m m1 := (macSend_safe g m data fport conf rs hwf hval.1 hval.2).elim hsend
+      have hid1 : m1.region.id = r := by rw [hk1.2.1, hid]
+      obtain ⟨hp0, hw0⟩ := hpend s hst
+      have hmac : macField so.frame = wires pend := by
+        rw [hfr, ← hp0]; simp only [macField, descOf]; split <;> rfl
+      have hsent := sentSession_pending s conf pend hp0 hw0
+      have hwsent : Whole (pend.filter (fun a => isSticky a.1)) := whole_filter hw0 _
+      have hout : ∃ so' resp dl, out = .up so' resp dl ∧ macField so'.frame = wires pend := by
+        unfold UplinkTail at ht
+        cases fault with
+        | none =>
+          simp only at ht
+          cases hsc : specCycle (sentSession s conf).fcntDown rx1 rx2 mp1 mp2 with
+          | accepted N d snr => simp only [hsc] at ht; obtain ⟨ctx, _, _, e⟩ := ht; exact ⟨so, _, _, e, hmac⟩
+          | ended => simp only [hsc] at ht; exact ⟨so, _, _, ht.2, hmac⟩
+          | nothing => simp only [hsc] at ht; exact ⟨so, _, _, ht.2, hmac⟩
+        | some k =>
+          simp only at ht
+          obtain ⟨m2, _, _, e⟩ := ht
+          exact ⟨so, _, _, e, hmac⟩
+      -- the verdict, and the state it leaves
+      have hfd : (sentSession s conf).fcntDown = s.fcntDown := rfl
+      cases hu : upRes s.fcntDown fault rx1 rx2 mp1 mp2 with
+      | accepted N d snr =>
+        have hctx : ∃ ctx, acceptCmds (sentSession s conf).pending m1.cfg m1.region d snr false = .ok ctx ∧
+            (m' = acceptState m1 (sentSession s conf) d N ctx ∨ m' = timeoutState (acceptState m1 (sentSession s conf) d N ctx)) := by
+          unfold UplinkTail at ht
+          unfold upRes at hu
+          cases fault with
+          | none =>
+            simp only at ht hu
+            rw [hfd, hu] at ht
+            obtain ⟨ctx, hc, e, _⟩ := ht
+            exact ⟨ctx, hc, Or.inl e⟩
+          | some k =>
+            simp only at ht hu
+            rw [hfd, hu] at ht
+            obtain ⟨m2, ⟨ctx, hc, e2⟩, e, _⟩ := ht
+            exact ⟨ctx, hc, Or.inr (by rw [e, e2]; rfl)⟩
+        obtain ⟨ctx, hc, hm'⟩ := hctx
+        obtain ⟨as, hshape, hpc⟩ := accept_frameShape _ _ _ d snr ctx hc
+        rw [hid1] at hshape
+        refine ⟨fit 15 as, ⟨rfl, ?_⟩, ?_⟩
+        · simp only [hout, hu, true_and]
+          exact ⟨as, hshape, rfl⟩
+        · intro s' hs'
+          refine ⟨?_, whole_prefix (frameShape_whole hshape) (fit_prefix _ _)⟩
+          rcases hm' with rfl | rfl
+          · rw [acceptState_pending _ _ d N ctx s' hs', hpc]
+          · obtain ⟨s2, hs2, e⟩ := timeoutState_pending _ s' hs'
+            rw [e, acceptState_pending _ _ d N ctx s2 hs2, hpc]
+      | ended =>
+        have hm' : m' = timeoutState m1 ∨ m' = timeoutState (timeoutState m1) := by
+          unfold UplinkTail at ht
+          unfold upRes at hu
+          cases fault with
+          | none => simp only at ht hu; rw [hfd, hu] at ht; exact Or.inl ht.1
+          | some k =>
+            simp only at ht hu; rw [hfd, hu] at ht
+            obtain ⟨m2, e2, e, _⟩ := ht
+            exact Or.inr (by rw [e, e2]; rfl)
+        refine ⟨pend.filter (fun a => isSticky a.1), ⟨rfl, ?_⟩, ?_⟩
+        · simp only [hout, hu, true_and]
+        · intro s' hs'
+          refine ⟨?_, hwsent⟩
+          rcases hm' with rfl | rfl
+          · obtain ⟨s2, hs2, e⟩ := timeoutState_pending _ s' hs'
+            rw [hst1] at hs2; cases hs2
+            rw [e, hsent]
+          · obtain ⟨s2, hs2, e⟩ := timeoutState_pending _ s' hs'
+            obtain ⟨s3, hs3, e3⟩ := timeoutState_pending _ s2 hs2
+            rw [hst1] at hs3; cases hs3
+            rw [e, e3, hsent]
+      | nothing =>
+        have hm' : m' = timeoutState m1 := by
+          unfold UplinkTail at ht
+          unfold upRes at hu
+          cases fault with
+          | none => simp only at ht hu; rw [hfd, hu] at ht; exact ht.1
+          | some k =>
+            simp only at ht hu; rw [hfd, hu] at ht
+            obtain ⟨m2, e2, e, _⟩ := ht
+            rw [e, e2]; rfl
+        refine ⟨pend.filter (fun a => isSticky a.1), ⟨rfl, ?_⟩, ?_⟩
+        · simp only [hout, hu, true_and]
+        · intro s' hs'
+          refine ⟨?_, hwsent⟩
+          subst hm'
+          obtain ⟨s2, hs2, e⟩ := timeoutState_pending _ s' hs'
+          rw [hst1] at hs2; cases hs2
+          rw [e, hsent]
+
+
+/-- **C08 over every history**: from any well-formed state the reference state `ag` describes, for
+every history of valid events (frames with 16-bit wire counters) and every random stream, there is a
+run of the reference (`TraceR`) in which EVERY uplink carries exactly the answers owed at that point,
+and the owed answers evolve as `AnsStep` says: after a downlink accepted in a Class A window — one
+answer per handled request in request order, LinkADRReq blocks answered with identical copies, cut
+only at the 15-byte limit; sticky answers repeated in every uplink until the next such downlink, all
+others sent once. -/
+theorem history_answers {σ} (g : Rng σ) (r : RegionId) (m : MacState) (rs : σ) (ag : AG) (hr : AnsRel r m ag)
+    (evs : List Ev) (hv : ∀ ev ∈ evs, evOk ev = true ∧ validEv r ev = true) (ms' : MacState × σ) (outs : List Out)
+    (h : run g (m, rs) evs = .ok (ms', outs)) : TraceR (AnsStep r) ag (evs.zip outs) := by
+  have hc := run_chain g (m, rs) ms' evs outs h
+  exact chain_traceR g (AnsStep r) (AnsRel r) (fun ev => evOk ev = true ∧ validEv r ev = true)
+    (fun m s ev m' s' out gh hr hv hs => step_ansRel g r m m' s s' ev out gh hr hv hs)
+    (m, rs) ms' (evs.zip outs) ag hr (fun x hx => hv x.1 (List.of_mem_zip hx).1) hc
+
+theorem ansRel_init (r : RegionId) (maxPower : Nat) (gain : Int) (hg : gainOk r gain = true) :
+    AnsRel r (MacState.init (RegionState.init r) maxPower gain) (none, []) := by
+  refine ⟨ghRel_init _ _ _, ?_, by cases r <;> rfl, fun s hs => by cases hs⟩
+  apply MacWF.mk
+  · cases r <;> rfl
+  · cases r <;> rfl
+  · cases r <;> exact hg
+  · rfl
+
+/-- … in particular from the initial state of every region -/
+theorem history_answers_init {σ} (g : Rng σ) (r : RegionId) (maxPower : Nat) (gain : Int) (hg : gainOk r gain = true) (rs : σ)
+    (evs : List Ev) (hv : ∀ ev ∈ evs, evOk ev = true ∧ validEv r ev = true) (ms' : MacState × σ) (outs : List Out)
+    (h : run g (MacState.init (RegionState.init r) maxPower gain, rs) evs = .ok (ms', outs)) :
+    TraceR (AnsStep r) (none, []) (evs.zip outs) :=
+  history_answers g r _ rs (none, []) (ansRel_init r maxPower gain hg) evs hv ms' outs h
+
+/-! non-vacuity: RXParamSetupReq + DevStatusReq in FOpts of a downlink accepted in RX1; the next
+uplink carries both answers, the one after only the sticky RXParamSetupAns, and after the next
+accepted Class A downlink nothing -/
+def lcg : Rng Nat := fun x => ((x * 1103515245 + 12345) / 65536, x * 1103515245 + 12345)
+
+def dl (w : Nat) (fopts : List Nat) : Option (RxView × Int) :=
+  some (.data { len := 20, confirmed := false, fcnt16 := w, micFcnt := some w, fopts := fopts, fport := some 1, payload := [1] }, 5)
+
+def demoHistory : List Ev :=
+  [ .joinAbp 7 1 2,
+    .uplink [1] 1 false none (dl 1 [0x05, 0x23, 0xD2, 0xAD, 0x84, 0x06]) none 51 51,
+    .uplink [2] 1 false none none none 51 51,
+    .uplink [3] 1 false none none (dl 2 []) 51 51,
+    .uplink [4] 1 false none none none 51 51,
+    .uplink [] 0 false none none none 51 51 ]
+
+def macFields (outs : List Out) : List (List Nat) :=
+  outs.filterMap (fun o => match o with | .up so _ _ => some (macField so.frame) | _ => none)
+
+example : ∀ ev ∈ demoHistory, evOk ev = true ∧ validEv .EU868 ev = true := by decide
+example : (run lcg (MacState.init (RegionState.init .EU868) 14 0, 1) demoHistory).toOption.map (fun r => macFields r.2)
+    = some [[], [0x05, 7, 0x06, 255, 5], [0x05, 7], [], []] := by decide +kernel
+example : fit 15 [(5, [7]), (6, [255, 5])] = [(5, [7]), (6, [255, 5])] := by decide
+example : fit 4 [(5, [7]), (6, [255, 5]), (8, [])] = [(5, [7])] := by decide
+
 end C08
 
 #print axioms C08.push_length_le
@@ -1035,3 +1383,11 @@ end C08
 #print axioms C08.dlChannel_atomic
 #print axioms C08.dlChannel_rx1
 #print axioms C08.newChannel_atomic
+#print axioms C08.handleCmds_adr_run
+#print axioms C08.handleCmds_answers
+#print axioms C08.handleCmds_answers_full
+#print axioms C08.accept_answers
+#print axioms C08.Answers.shape
+#print axioms C08.step_ansRel
+#print axioms C08.history_answers
+#print axioms C08.history_answers_init
